@@ -74,7 +74,12 @@ func baseFrames(thorough bool) []baseFrame {
 		if o.BS != 65536 || o.Conc != 1 || o.Legacy || (o.Level != 0 && !thorough) {
 			continue
 		}
-		for _, in := range []inputSpec{{0, "zeros"}, {1, "zeros"}, {100, "lcg"}, {65537, "zeros"}} {
+		ins := []inputSpec{{0, "zeros"}, {1, "zeros"}, {100, "lcg"}, {65537, "zeros"}}
+		if o.Level == 0 {
+			// full-size stored (incompressible) blocks: exactly one block, and one block plus a short one
+			ins = append(ins, inputSpec{65536, "lcg"}, inputSpec{65541, "lcg"})
+		}
+		for _, in := range ins {
 			input := in.build()
 			fr, err := produceFrame(o, input, delivery{Kind: "write"})
 			if err != nil {
@@ -202,10 +207,10 @@ type streamCase struct {
 }
 
 func (k streamCase) frozen() streamCase {
-	if len(k.stream) <= 1<<16 {
+	if len(k.stream) <= 1<<18 {
 		k.Hex = hex.EncodeToString(k.stream)
 	}
-	k.stream = nil
+	k.stream = append([]byte(nil), k.stream...) // private copy: the enumerator reuses its buffer
 	return k
 }
 
@@ -293,6 +298,9 @@ func enumMutations(b *baseFrame, all []baseFrame, thorough bool, emit mutEmit) {
 	stride := 1
 	if len(fr) > 600 {
 		stride = 37 // large Writer frames: structural bytes are covered below, payload bits are strided
+	}
+	if len(fr) > 8192 {
+		stride = 1009
 	}
 	for bit := 0; bit < limit*8; bit += stride {
 		copy(m, fr)
@@ -403,7 +411,7 @@ func c05Run(c *ev.Ctx) {
 				}
 				if f := c05Check(k, b); f != nil {
 					kk := k.frozen()
-					c.Confirm(f, func() *ev.Finding { k2 := kk; return c05Check(&k2, b) })
+					c.ConfirmFree(f, rc.Conc > 1, func() *ev.Finding { k2 := kk; return c05Check(&k2, b) })
 				}
 			}
 		})
@@ -523,7 +531,7 @@ func c06Run(c *ev.Ctx) {
 				c.Distinct(1)
 				if f := c06Check(k, fr, b.Content, b.Legacy); f != nil {
 					kk := k.frozen()
-					c.Confirm(f, func() *ev.Finding { k2 := kk; return c06Check(&k2, fr, b.Content, b.Legacy) })
+					c.ConfirmFree(f, rc.Conc > 1, func() *ev.Finding { k2 := kk; return c06Check(&k2, fr, b.Content, b.Legacy) })
 				}
 			}
 		}
@@ -600,7 +608,7 @@ func c07Run(c *ev.Ctx) {
 		if f := c07Check(k, wantInvalid, skipCheck, allocBound); f != nil {
 			kk := k.frozen()
 			kk.stream = append([]byte(nil), k.stream...)
-			c.Confirm(f, func() *ev.Finding { k2 := kk; return c07Check(&k2, wantInvalid, skipCheck, allocBound) })
+			c.ConfirmFree(f, k.Read.Conc > 1, func() *ev.Finding { k2 := kk; return c07Check(&k2, wantInvalid, skipCheck, allocBound) })
 		}
 	}
 	// T1: every byte string of length 0..2 (thorough: 3)
